@@ -354,15 +354,18 @@ def r1_child_kwargs(P, rep, ctx):
 
 def r1_wrap_if_node(P, rep, ctx):
     fi = P.func(f"{W}.MetadorNode._wrap_if_node")
-    g = ctx.cfg(fi)
+    f = F(ctx, fi)
+    vp = fi.params[1]
+    try:
+        paths = f.value_paths()
+    except ValueError as e:
+        raise AnalysisError(f"C15.R1: _wrap_if_node: {e}")
     for proto, ctor in (("H5GroupLike", "MetadorGroup"), ("H5DatasetLike", "MetadorDataset")):
-        tests = [t for t in g.nodes if t.kind == "test" and norm(t.exprs[0]) == f"isinstance(val, {proto})"]
-        ok = False
-        for t in tests:
-            succ = [b for b, lab in g.succ[t.idx] if lab == "T"]
-            rets = [g.nodes[b] for b in g.reach(succ) | set(succ) if isinstance(g.nodes[b].stmt, ast.Return)]
-            direct = [r for r in rets if r.idx in succ]
-            ok = bool(direct) and all(Classifier(P, fi).classify(r.stmt.value)[0] == "wrapped" and call_attr(r.stmt.value) == ctor for r in direct)
+        key = f"isinstance({vp}, {proto})"
+        mine = [(lits, v) for lits, v, n_ in paths if (key, True) in lits]
+        # path-sensitive: on every path on which the value was found to be of this kind, the matching wrapper with the
+        # inherited flags is returned (the class may be picked first and applied later)
+        ok = bool(mine) and all(isinstance(v, ast.Call) and norm(v.func) == ctor and Classifier(P, fi).classify(v)[0] == "wrapped" for lits, v in mine)
         rep.check(ok, "C15.R1", fi.qual, f"_wrap_if_node wraps {proto} values as {ctor} with inherited flags", fi.loc(), construct=f"_wrap_if_node branch for {proto}",
                   message=f"_wrap_if_node has no branch returning {ctor}(..., **self._child_node_kwargs()) for {proto} values")
 
